@@ -504,7 +504,7 @@ class BindMode(IntEnum):
         if self == BindMode.TRANSMITTER:
             return SmppSessionState.BOUND_TX
         if self == BindMode.RECEIVER:
-            return SmppSessionState.BOUND_TX
+            return SmppSessionState.BOUND_RX
         return SmppSessionState.BOUND_TRX
 
     @property
